@@ -1329,6 +1329,10 @@ func directedJobs(prop, tier string, seed int64) []job {
 		return 1
 	}
 
+	for v := 0; v < nScripts; v++ {
+		v := v
+		add("script", func(a *App, mon *Mon) *Run { runScript(a, mon, seed, v); return mon.run })
+	}
 	cc := cadenceCases()
 	for _, i := range sampleIdx(rng, len(cc), q(60*weight("C09", "C10", "C11", "C16", "C12"), len(cc))) {
 		c := cc[i]
